@@ -30,6 +30,7 @@ type Point struct {
 	N      int
 	Chosen int
 	Costs  []Cost
+	Focus  []bool // per alternative: admitted by Config.BranchOnly (nil = all)
 	Desc   string // description of the chosen alternative (filled only when Cfg.Describe)
 }
 
@@ -74,6 +75,9 @@ type Config struct {
 	Describe  bool // fill Point.Desc and keep a step trace (slow; used for replay output)
 	MaxSteps  int  // safety net per execution (0 = 200000)
 	Races     bool // maintain vector clocks and check logged accesses (C20)
+	// BranchOnly restricts exploration: a non-default alternative is explored only if the thread name
+	// or timer label it would run contains one of these substrings (empty = no restriction)
+	BranchOnly []string
 }
 
 type opKind uint8
@@ -384,6 +388,22 @@ func (s *Sched) loop() {
 			for i, a := range alts {
 				p.Costs[i] = a.cost
 			}
+			if len(s.cfg.BranchOnly) > 0 {
+				p.Focus = make([]bool, len(alts))
+				for i, a := range alts {
+					nm := ""
+					if a.timer != nil {
+						nm = a.timer.label
+					} else if a.t != nil {
+						nm = a.t.name
+					}
+					for _, sub := range s.cfg.BranchOnly {
+						if strings.Contains(nm, sub) {
+							p.Focus[i] = true
+						}
+					}
+				}
+			}
 			if s.cfg.Describe {
 				p.Desc = s.descAlt(alts[choice])
 			}
@@ -441,6 +461,10 @@ func (s *Sched) park(o *op) int {
 		runtime.Goexit()
 	}
 	t.op = o
+	if o != nil {
+		// arriving at an operation is progress of this thread (part of its causal history)
+		t.h = hmix(t.h, 0x77, uint64(o.kind))
+	}
 	s.yield <- struct{}{}
 	<-t.wake
 	if s.aborting {
